@@ -29,7 +29,7 @@ ASSUMPTIONS = ["model: ids 1..0xFFFF repeating per destination; reboot flag set 
                "the default (multicast) destination is always addressed with remote=None, as the library itself does"]
 FLOORS = {"quick": {"datagrams_decoded": 400000, "wraps_observed": 8, "empty_sends": 1000, "full_cycle_walks": 1,
                     "notification_wraps": 6, "notification_wraps_inside_a_datagram": 4, "announcer_path_datagrams": 1000, "destinations_checked": 12, "churn_notifications_checked": 3000,
-                    "mesh_scenarios": 100, "mesh_session_ids_checked": 8000}}
+                    "mesh_scenarios": 100, "mesh_session_ids_checked": 4800}}
 # system-level shards: the mesh workload of pv/mesh.py under this property's boundary monitors (reports of other monitors are dropped)
 MESH = {"want": ("wire",), "claim": ("mesh:session-id", "mesh:reboot-flag-wrong", "mesh:empty-sd-message"),
         "quick": (2, 60), "thorough": (16, 1500)}
